@@ -28,6 +28,7 @@ import (
 	"sort"
 	"strings"
 	"time"
+	"unicode/utf8"
 
 	"github.com/ghodss/yaml"
 	v2 "mosn.io/mosn/pkg/config/v2"
@@ -126,6 +127,9 @@ func initEffective(cfg *v2.MOSNConfig) {
 // normalised: canonical typed JSON of a loaded config after the defaults of the initialisation
 func normalised(cfg *v2.MOSNConfig) string {
 	c := *cfg
+	// compare item by item: path (directory) mode is turned into inline mode, so that every cluster and every
+	// virtual host that was loaded from the directory is part of the compared document
+	c.ClusterManager.ClusterConfigPath = ""
 	if c.Mode() != v2.Xds {
 		clusters, _ := configmanager.ParseClusterConfig(c.ClusterManager.Clusters)
 		byName := map[string]v2.Cluster{}
@@ -160,6 +164,11 @@ func normalised(cfg *v2.MOSNConfig) string {
 				routers[rc.RouterConfigName] = rc
 			}
 		}
+		for k, rc := range routers {
+			cp := *rc
+			cp.RouterConfigPath = ""
+			routers[k] = &cp
+		}
 		sc.Listeners = nil
 		for _, l := range ls {
 			sc.Listeners = append(sc.Listeners, l)
@@ -177,8 +186,75 @@ func normalised(cfg *v2.MOSNConfig) string {
 }
 
 type rtResult struct {
-	Dump1, Dump2 []byte
-	Norm0, Norm1 string
+	Dump1, Dump2        []byte
+	Norm0, Norm1, Norm2 string
+	Items0, Items1      []item // named items of load j and of load (dump (load j))
+}
+
+// item: a cluster, a router or a virtual host of a loaded configuration
+type item struct {
+	Kind      string // cluster | router | vhost
+	Container string // "" | router name (for virtual hosts)
+	Name      string
+	PathMode  bool // its container is in path (directory) mode
+}
+
+func itemsOf(cfg *v2.MOSNConfig) []item {
+	var out []item
+	cmPath := cfg.ClusterManager.ClusterConfigPath != ""
+	seenC := map[string]bool{}
+	for _, c := range cfg.ClusterManager.Clusters {
+		if !seenC[c.Name] {
+			seenC[c.Name] = true
+			out = append(out, item{"cluster", "", c.Name, cmPath})
+		}
+	}
+	if len(cfg.Servers) > 0 {
+		routers := map[string]*v2.RouterConfiguration{}
+		for _, rc := range cfg.Servers[0].Routers {
+			if rc != nil && rc.RouterConfigName != "" {
+				routers[rc.RouterConfigName] = rc
+			}
+		}
+		for n, rc := range routers {
+			out = append(out, item{"router", "", n, false})
+			for _, vh := range rc.VirtualHosts {
+				out = append(out, item{"vhost", n, vh.Name, rc.RouterConfigPath != ""})
+			}
+		}
+	}
+	sort.Slice(out, func(i, j int) bool {
+		a, b := out[i], out[j]
+		if a.Kind != b.Kind {
+			return a.Kind < b.Kind
+		}
+		if a.Container != b.Container {
+			return a.Container < b.Container
+		}
+		return a.Name < b.Name
+	})
+	return out
+}
+
+// refFileName: the file a named item of a path-mode container is kept in (config/v2 MarshalJSON of
+// ClusterManagerConfig / RouterConfiguration): first MaxFilePath bytes of the name, path separators replaced, ".json"
+func refFileName(name string) string {
+	if len(name) > v2.MaxFilePath {
+		name = name[:v2.MaxFilePath]
+	}
+	return strings.ReplaceAll(name, string(os.PathSeparator), "_") + ".json"
+}
+
+func lenBucket(n int) string {
+	switch {
+	case n == 0:
+		return "empty"
+	case n <= v2.MaxFilePath-5:
+		return "<=123"
+	case n <= v2.MaxFilePath:
+		return "124..128"
+	}
+	return ">128"
 }
 
 // roundTrip runs load -> effective -> dump -> load -> effective -> dump on the real code, in dir.
@@ -192,6 +268,7 @@ func roundTrip(path, dir string) (*rtResult, string) {
 	}
 	res := &rtResult{}
 	res.Norm0 = normalised(cfg0)
+	res.Items0 = itemsOf(cfg0)
 	configmanager.Reset()
 	cfg := configmanager.Load(path)
 	initEffective(cfg)
@@ -207,6 +284,7 @@ func roundTrip(path, dir string) (*rtResult, string) {
 		return res, "dump-not-loadable:" + why
 	}
 	res.Norm1 = normalised(cfg1)
+	res.Items1 = itemsOf(cfg1)
 	configmanager.Reset()
 	cfg = configmanager.Load(p1)
 	initEffective(cfg)
@@ -215,6 +293,13 @@ func roundTrip(path, dir string) (*rtResult, string) {
 		return res, "transfer2:" + firstWords(err.Error(), 6)
 	}
 	res.Dump2 = d2
+	p2 := filepath.Join(dir, "dump2.json")
+	ioutil.WriteFile(p2, d2, 0o644)
+	cfg2, why := tryParse(p2)
+	if cfg2 == nil {
+		return res, "dump2-not-loadable:" + why
+	}
+	res.Norm2 = normalised(cfg2)
 	return res, ""
 }
 
@@ -272,6 +357,18 @@ func jsonDiff(a, b string) string {
 		return ""
 	}
 	return rec("", x, y)
+}
+
+// itemName: a unique name for an item of a path-mode container, with a length around the file-name limits
+func (f *filler) itemName(prefix string) string {
+	lengths := []int{1, 8, 30, 122, 123, 124, 127, 128, 129, 200}
+	L := lengths[f.r.Intn(len(lengths))]
+	s := prefix + f.uniq("n")
+	fill := []string{"abcdefghij", "x/y._ ", "\u00e9z"}[f.r.Intn(3)]
+	for len(s) < L {
+		s += fill
+	}
+	return s
 }
 
 func sampleFiles(repo string) []string {
@@ -349,9 +446,9 @@ func genConfig(f *filler, r *Rng, dir string, n int) []byte {
 		rc.RouterConfigPath = ""
 		rc.StaticVirtualHosts = nil
 		if r.Pct(f.dirPct) && len(rc.VirtualHosts) > 0 {
-			rc.RouterConfigPath = filepath.Join(dir, fmt.Sprintf("routers_%d_%s", n, rc.RouterConfigName))
+			rc.RouterConfigPath = filepath.Join(dir, fmt.Sprintf("routers_%d_%d", n, i))
 			for vi := range rc.VirtualHosts {
-				rc.VirtualHosts[vi].Name = fmt.Sprintf("vh%d", vi)
+				rc.VirtualHosts[vi].Name = f.itemName(fmt.Sprintf("vh%d-", vi))
 			}
 		}
 	}
@@ -364,6 +461,9 @@ func genConfig(f *filler, r *Rng, dir string, n int) []byte {
 	}
 	if r.Pct(f.dirPct) && len(cm.Clusters) > 0 {
 		cm.ClusterConfigPath = filepath.Join(dir, fmt.Sprintf("clusters_%d", n))
+		for i := range cm.Clusters {
+			cm.Clusters[i].Name = f.itemName(fmt.Sprintf("c%d-", i))
+		}
 		seen := map[string]bool{}
 		var cs []v2.Cluster
 		for _, c := range cm.Clusters {
@@ -382,20 +482,131 @@ func genConfig(f *filler, r *Rng, dir string, n int) []byte {
 	}
 	// xDS resources are outside this property: keep File mode
 	cfg.RawDynamicResources, cfg.RawStaticResources = nil, nil
-	b, err := json.MarshalIndent(cfg, "", " ")
+	return writeDoc(cfg)
+}
+
+// writeDoc serialises a configuration.  For a container in path (directory) mode the ITEM FILES ARE WRITTEN HERE under
+// neutral names (item<i>.json; the loader reads every .json file of the directory), not by the marshaler under test,
+// so that load j really holds every item whatever the marshaler's file naming does.
+func writeDoc(cfg *v2.MOSNConfig) []byte {
+	type pending struct {
+		dir   string
+		files [][]byte
+	}
+	var todo []pending
+	c := *cfg
+	if c.ClusterManager.ClusterConfigPath != "" {
+		p := pending{dir: c.ClusterManager.ClusterConfigPath}
+		for _, cl := range c.ClusterManager.Clusters {
+			b, err := json.Marshal(cl)
+			if err != nil {
+				return nil
+			}
+			p.files = append(p.files, b)
+		}
+		todo = append(todo, p)
+		c.ClusterManager.Clusters = nil
+	}
+	servers := make([]v2.ServerConfig, len(c.Servers))
+	copy(servers, c.Servers)
+	c.Servers = servers
+	for si := range c.Servers {
+		routers := make([]*v2.RouterConfiguration, len(c.Servers[si].Routers))
+		for ri, rc := range c.Servers[si].Routers {
+			routers[ri] = rc
+			if rc == nil || rc.RouterConfigPath == "" {
+				continue
+			}
+			p := pending{dir: rc.RouterConfigPath}
+			for _, vh := range rc.VirtualHosts {
+				b, err := json.Marshal(vh)
+				if err != nil {
+					return nil
+				}
+				p.files = append(p.files, b)
+			}
+			todo = append(todo, p)
+			cp := *rc
+			cp.VirtualHosts = nil
+			routers[ri] = &cp
+		}
+		c.Servers[si].Routers = routers
+	}
+	b, err := json.MarshalIndent(c, "", " ") // (a path-mode marshaler with no items only clears its directory)
 	if err != nil {
 		return nil
+	}
+	for _, p := range todo {
+		os.RemoveAll(p.dir)
+		os.MkdirAll(p.dir, 0o755)
+		for i, fb := range p.files {
+			ioutil.WriteFile(filepath.Join(p.dir, fmt.Sprintf("item%d.json", i)), fb, 0o644)
+		}
 	}
 	return b
 }
 
+// boundaryDocs: path-mode documents whose item names sit at the file-name limits
+func boundaryDocs(dir string) []*v2.MOSNConfig {
+	lengths := []int{1, 122, 123, 124, 127, 128, 129, 200}
+	mk := func(tag string, names []string, k int) *v2.MOSNConfig {
+		cfg := &v2.MOSNConfig{}
+		sc := v2.ServerConfig{ServerName: "s"}
+		rc := &v2.RouterConfiguration{}
+		rc.RouterConfigName = "r1"
+		rc.RouterConfigPath = filepath.Join(dir, fmt.Sprintf("b_%s_%d_routers", tag, k))
+		for _, n := range names {
+			rc.VirtualHosts = append(rc.VirtualHosts, v2.VirtualHost{Name: n, Domains: []string{fmt.Sprintf("d%d.example", len(rc.VirtualHosts))}})
+		}
+		sc.Routers = []*v2.RouterConfiguration{rc}
+		cfg.Servers = []v2.ServerConfig{sc}
+		cfg.ClusterManager.ClusterConfigPath = filepath.Join(dir, fmt.Sprintf("b_%s_%d_clusters", tag, k))
+		for _, n := range names {
+			cfg.ClusterManager.Clusters = append(cfg.ClusterManager.Clusters, v2.Cluster{Name: n, ClusterType: v2.SIMPLE_CLUSTER, LbType: v2.LB_RANDOM})
+		}
+		return cfg
+	}
+	pad := func(prefix string, n int, fill string) string {
+		s := prefix
+		for len(s) < n {
+			s += fill
+		}
+		s = s[:n]
+		for !utf8.ValidString(s) { // do not end in half a rune
+			s = s[:len(s)-1]
+		}
+		for len(s) < n {
+			s += "~"
+		}
+		return s
+	}
+	// a two-byte rune whose bytes sit at offsets at-1, at (so that a cut after `at` bytes splits it)
+	straddle := func(at, n int) string {
+		if n <= at {
+			return pad("s", n, "k")
+		}
+		return pad(pad("s", at-1, "k")+"\u00e9", n, "w")
+	}
+	var out []*v2.MOSNConfig
+	for k, L := range lengths {
+		out = append(out, mk("ascii", []string{pad("n", L, "abcdefghij")}, k))
+		out = append(out, mk("chars", []string{pad("a/b.c d", L, "x/y._ ")}, k))
+		// a two-byte rune straddling the cut, a name ending in .json, a leading dot
+		out = append(out, mk("misc", []string{straddle(128, L), "t" + straddle(122, L-1), pad("\u00e9", L, "\u00e9\u00e9z"), pad(".h", L, "q.json"), pad("J", L, ".json")}, k))
+	}
+	// pairs that the file naming maps to one file: same first MaxFilePath bytes; '/' against '_'
+	long := pad("p", 128, "0123456789")
+	out = append(out, mk("collide-prefix", []string{long + "-A", long + "-B"}, 0))
+	out = append(out, mk("collide-sep", []string{"a/b", "a_b"}, 0))
+	return out
+}
+
 func c19(args []string) int {
 	run := NewRun("C19", args)
-	seedMix := NewRng(run.Seed)
-	r := NewRng(seedMix.U64() ^ (seedMix.U64() << 1) ^ 0xC19)
+	r := run.R
 	log.DefaultLogger.SetLogLevel(log.FATAL)
 	log.StartLogger.SetLogLevel(log.FATAL)
-	run.Sum.Rule = "documents: (a) every .json/.yaml/.yml under /repo/configs and /repo/examples that configmanager.Load and pkg/mosn's checks accept (the others are counted by reason); (b) documents generated from the configuration types: reflect-random v2.MOSNConfig made valid (one server, one filter chain per listener with one of the three TLS shapes, resolvable addresses, tcp/udp/upper-case/absent network, named and unnamed listeners, duplicate names, deprecated connection_manager routes, directory-mode routers/clusters in a scratch directory, durations, byte sizes, per-filter config with nested numbers, extension configs), marshalled with the real marshalers. Each document goes through load -> effective config -> transferConfig -> load -> effective config -> transferConfig on the real code. A case is non-trivial when the document has at least one listener, cluster or router; distinct by document hash."
+	run.Sum.Rule = "documents: (a) every .json/.yaml/.yml under /repo/configs and /repo/examples that configmanager.Load and pkg/mosn's checks accept (the others are counted by reason); (b) path-mode boundary documents: item names of exactly {1,122,123,124,127,128,129,200} bytes (ASCII, with separators/dots/blanks, a rune straddling the cut, names ending in .json) for clusters and virtual hosts, and pairs mapped to one file (same 128-byte prefix; '/' against '_'); (c) documents generated from the configuration types: reflect-random v2.MOSNConfig made valid (one server, one filter chain per listener with one of the three TLS shapes, resolvable addresses, tcp/udp/upper-case/absent network, named and unnamed listeners, duplicate names, deprecated connection_manager routes, path (directory) mode routers/clusters in a scratch directory with item names of 1..200 bytes incl. '/', '.', blanks and multi-byte runes (the item files of the INPUT are written by the harness under neutral names), durations, byte sizes, per-filter config with nested numbers, extension configs), marshalled with the real marshalers. Each document goes through load -> effective config -> transferConfig -> load -> effective config -> transferConfig on the real code. A case is non-trivial when the document has at least one listener, cluster or router; distinct by document hash."
 	tmp := filepath.Join(run.Out, "c19dir")
 	os.MkdirAll(tmp, 0o755)
 	configmanager.VerifSetAutoWrite(false)
@@ -426,7 +637,47 @@ func c19(args []string) int {
 			d := jsonDiff(c1, c2)
 			run.Fail("second-dump-differs:"+pathClass(d), fmt.Sprintf("%s %s: dump(load(dump(load j))) differs from dump(load j) at %s", kind, name, d), replay)
 		}
-		if res.Norm0 != res.Norm1 {
+		// item by item: every cluster / router / virtual host of load j is there after load (dump (load j))
+		have := map[item]bool{}
+		for _, it := range res.Items1 {
+			it.PathMode = false
+			have[it] = true
+		}
+		lostAny := false
+		for _, it := range res.Items0 {
+			k := it
+			k.PathMode = false
+			if have[k] {
+				continue
+			}
+			lostAny = true
+			class := "inline"
+			if it.PathMode {
+				class = "name-len-" + lenBucket(len(it.Name))
+				// another item of the same container kept in the same file?
+				for _, o := range res.Items0 {
+					if o.Kind == it.Kind && o.Container == it.Container && o.Name != it.Name && refFileName(o.Name) == refFileName(it.Name) {
+						class = "file-name-collision"
+					}
+				}
+			}
+			mode := map[string]string{"cluster": "clusters_configs", "vhost": "router_configs", "router": "routers"}[it.Kind]
+			run.Fail("reload-lost-item:"+mode+":"+class,
+				fmt.Sprintf("%s %s: the %s %q (name of %d bytes) of load j is missing from load(dump(load j))", kind, name, it.Kind, it.Name, len(it.Name)), replay)
+		}
+		run.Sum.Distribution["items:checked"] += len(res.Items0)
+		for _, it := range res.Items0 {
+			if it.PathMode {
+				run.Sum.Distribution["items:path-mode:"+it.Kind+":name-len-"+lenBucket(len(it.Name))]++
+			}
+		}
+		if res.Norm1 != res.Norm2 && !lostAny {
+			d := jsonDiff(res.Norm1, res.Norm2)
+			run.Fail("second-reload-differs:"+pathClass(d), fmt.Sprintf("%s %s: load of the second dump differs from load of the first at %s", kind, name, d), replay)
+		}
+		if res.Norm0 != res.Norm1 && lostAny {
+			// already reported item by item
+		} else if res.Norm0 != res.Norm1 {
 			d := jsonDiff(res.Norm0, res.Norm1)
 			if cfg0, _ := tryParse(path); cfg0 != nil && cfg0.Mode() == v2.Xds && d == ".servers" {
 				d = "xds-mode:.servers"
@@ -443,9 +694,24 @@ func c19(args []string) int {
 		// directory-mode samples would write into /repo: run them from a scratch copy of their directory
 		check("sample", rel, p, map[string]interface{}{"file": rel})
 	}
+	for i, cfg := range boundaryDocs(tmp) {
+		b := writeDoc(cfg)
+		p := filepath.Join(tmp, fmt.Sprintf("boundary%d.json", i))
+		ioutil.WriteFile(p, b, 0o644)
+		var names []string
+		for _, c := range cfg.ClusterManager.Clusters {
+			names = append(names, c.Name)
+		}
+		check("boundary", fmt.Sprintf("boundary%d", i), p, map[string]interface{}{"path_mode": true, "item_names": names, "name_lengths": func() (l []int) {
+			for _, n := range names {
+				l = append(l, len(n))
+			}
+			return
+		}()})
+	}
 	nGen := run.N(120, 2500)
 	for i := 0; i < nGen; i++ {
-		f := &filler{r: r, maxDepth: 9, tmp: tmp, dirPct: 20, noTLS: false}
+		f := &filler{r: r, maxDepth: 9, tmp: tmp, dirPct: 30, noTLS: false}
 		b := genConfig(f, r, tmp, i)
 		if b == nil {
 			run.Sum.Distribution["gen:marshal-error"]++
@@ -646,6 +912,40 @@ func c19(args []string) int {
 		}
 	}
 	run.Sum.Extra["shadow_hook_closure_types"] = nPairs
+	// (b'') path-mode file naming: the file the real marshalers write for an item name, against the model of the
+	// operation order read from the source
+	fileCase := func(router bool, name string) {
+		if name == "" {
+			return
+		}
+		d := filepath.Join(tmp, fmt.Sprintf("fn%d", run.Sum.Distribution["model:file-name-case"]))
+		os.RemoveAll(d)
+		var err error
+		if router {
+			rc := v2.RouterConfiguration{}
+			rc.RouterConfigName, rc.RouterConfigPath = "r", d
+			rc.VirtualHosts = []v2.VirtualHost{{Name: name}}
+			_, err = json.Marshal(rc)
+		} else {
+			cm := v2.ClusterManagerConfig{}
+			cm.ClusterConfigPath = d
+			cm.Clusters = []v2.Cluster{{Name: name}}
+			_, err = json.Marshal(cm)
+		}
+		ents, _ := ioutil.ReadDir(d)
+		if err != nil || len(ents) != 1 {
+			run.Sum.Distribution["model:file-name-unwritable"]++
+			return
+		}
+		add(fmt.Sprintf("(FileCase %v %s %s)", router, coqStr(name), coqStr(ents[0].Name())), map[string]interface{}{"kind": "file-name", "router": router, "name": name, "file": ents[0].Name()})
+		run.Sum.Distribution["model:file-name-case"]++
+	}
+	for _, cfg := range boundaryDocs(tmp) {
+		for _, cl := range cfg.ClusterManager.Clusters {
+			fileCase(false, cl.Name)
+			fileCase(true, cl.Name)
+		}
+	}
 	// (c) the duration coder law used by the hook pairs: ParseDuration(String(d)) = d
 	durs := []time.Duration{0, 1, 999, 1000, 1500, time.Millisecond, 1500 * time.Microsecond, time.Second, 1500 * time.Millisecond, time.Minute, 90 * time.Second, time.Hour, 1<<63 - 1, -1500 * time.Millisecond}
 	for i := 0; i < run.N(200, 5000); i++ {
